@@ -606,6 +606,34 @@ def check_c12(c, result):
     c.samples += [tq[0][1], tq[3][1]]
 
 
+def env_matrix_cli(c, result, pid, queries, modes=('json', 'text')):
+    """the real command in other environments (variables, locale, CPUs, open-file limit): it ends normally and shows
+    the same locations and rows as in the default environment"""
+    def show(args, ov):
+        rc, o, e = run_env([B + '/pathfinder', 'query', '--disable-metrics', '--project', c.proj] + args, ov, timeout=300, base=dict(ENV, HOME=c.work))
+        text = re.sub(r'\x1b\[[0-9;]*m', '', o.decode('utf-8', 'replace'))
+        j = text.rfind('Executing query: ')
+        body = text[j:] if j >= 0 else text
+        doc = next((l for l in body.split('\n') if l.startswith('{"output"')), None)
+        if doc is not None:
+            rs_, rows_ = qrun.parse_result(doc)
+            return rc, e, Counter((x, re.sub(r'0x[0-9a-f]+', '0xPTR', json.dumps(r_))) for x, r_ in zip(rs_, rows_ or [None] * len(rs_))) if rows_ and len(rows_) == len(rs_) else Counter(rs_)
+        return rc, e, Counter((m.group(1), int(m.group(2)), re.sub(r'0x[0-9a-f]+', '0xPTR', m.group(3))) for m in re.finditer(r'File: (.*?), Line: (\d+) \n\tResult: ([^\n]*)\n', body))
+    for q in queries:
+        for mode in modes:
+            args = ['--query', q] + (['--output', 'json'] if mode == 'json' else [])
+            rc0, e0, base = show(args, ('default', {}, None))
+            for ov in ENV_MATRIX:
+                rc, e, got = show(args, ov)
+                c.stats['%s_environment_runs' % pid.lower()] += 1
+                if rc != rc0 or (pid == 'C10' and rc not in (0, 1)) or (pid != 'C10' and got != base):
+                    result.violations.append(dict(property=pid, what='the query command behaves differently in another environment (%s, %s mode): exit status %d vs %d, %d vs %d rows' % (ov[0], mode, rc, rc0, sum(got.values()), sum(base.values())),
+                                                  query=q, environment=ov[1], open_files_limit=ov[2], stderr=e.decode(errors='replace')[-300:],
+                                                  project=[(p_, d_.decode('utf-8', 'replace')) for p_, d_ in c.files],
+                                                  how='run `pathfinder query --project D --query <query>%s` with the listed variables set (or `ulimit -n`)' % (' --output json' if mode == 'json' else '')))
+                    return
+
+
 def console_compare(c, result, pid, items, res, what):
     """items: [(qid, one-line text, k)] fed to ONE console session; each answer must be the stand-alone answer res[qid]"""
     items = [(qid, t, k) for qid, t, k in items if '\n' not in t and '\r' not in t and res.get(qid, ('', ''))[0] == 'ok']
@@ -1087,6 +1115,7 @@ def check_c15(c, result):
                 result.violations.append(payload_replay('C15', 'the row shown next to a location depends on the output flags (%s vs %s)' % (ms[0], diff), [t],
                                                         'only with %s: %s' % (diff, str(only)[:400]), c.files))
                 break
+    env_matrix_cli(c, result, 'C15', ['FROM method_declaration AS m SELECT m.getName(), m.getVisibility()'])
     c.samples += [t for _, t in tq[:2]]
 
 
@@ -1516,6 +1545,7 @@ def check_c10_c11(c, result):
                                               how='pathfinder query --project D --output json --query <query>; exit status / panic'))
                 break
     if pid == 'C10':
+        env_matrix_cli(c, result, 'C10', ['FROM class_declaration AS cd SELECT cd.getName()', 'FROM method_declaration AS m WHERE m.getName() SELECT m', 'FROM WHERE'], modes=('json',))
         # candidate counts x CPU counts: a tower of directories with one method each, scanned from every level
         # (n = 1 .. K candidates), under several GOMAXPROCS: what splits the candidates into chunks must do so for every n
         K = 210 if c.tier == 'quick' else 700
